@@ -3070,6 +3070,15 @@ void Analyser::AnalyserImpl::analyseModel(const ModelPtr &model)
                     addedExternalVariables.push_back(unknownVariable);
                     addedInternalEquations.push_back(AnalyserInternalEquation::create(unknownVariable));
                 }
+
+                // The NLA equation now depends on the external variable (the
+                // dependencies on our unknown variables were removed when the
+                // equation was checked).
+
+                if (unknownVariable->mIsExternal
+                    && (std::find(internalEquation->mDependencies.begin(), internalEquation->mDependencies.end(), unknownVariable->mVariable) == internalEquation->mDependencies.end())) {
+                    internalEquation->mDependencies.push_back(unknownVariable->mVariable);
+                }
             }
 
             internalEquation->mUnknownVariables.erase(std::remove_if(internalEquation->mUnknownVariables.begin(), internalEquation->mUnknownVariables.end(), isExternalVariable), internalEquation->mUnknownVariables.end());
